@@ -82,7 +82,24 @@ theorem logreg_schedule_independent (R : Gen G) (init : G → Nat → T) (step :
   rw [seeded_schedule_independent R init step need result parent nClasses id sch₁ h₁,
       seeded_schedule_independent R init step need result parent nClasses id sch₂ h₂]
 
+/-- non-vacuity: a genuinely interleaved schedule, with tasks finishing in the order 1, 2, 0, is complete -/
+example : Complete (fun _ : Nat => 2) (fun i => i) 3 [0, 1, 2, 1, 2, 0] := by
+  intro i hi
+  have : i = 0 ∨ i = 1 ∨ i = 2 := by omega
+  rcases this with rfl | rfl | rfl <;> rfl
+
 end discipline
+
+/-- non-vacuity of `seeded_schedule_independent` on a concrete instance: three tasks, each appending two draws of its
+own generator (seeded with a seed drawn from the parent `counter` generator); an interleaved schedule and the
+sequential one give the same indexed results, and the results are not trivial (the tasks' outputs differ) -/
+example :
+    seededRun (⟨fun g => (g, g + 1), fun s => 10 * s⟩ : Gen Nat) (fun g (_ : Nat) => (g, ([] : List Nat)))
+        (fun p => (p.1 + 1, p.2 ++ [p.1])) (fun p => p.2) 5 3 id [0, 1, 2, 1, 2, 0]
+      = [[50, 51], [60, 61], [70, 71]] ∧
+    seededRun (⟨fun g => (g, g + 1), fun s => 10 * s⟩ : Gen Nat) (fun g (_ : Nat) => (g, ([] : List Nat)))
+        (fun p => (p.1 + 1, p.2 ++ [p.1])) (fun p => p.2) 5 3 id [0, 0, 1, 1, 2, 2]
+      = [[50, 51], [60, 61], [70, 71]] := by decide
 
 /-! ### the contrast: without the discipline the result depends on the schedule / on n_jobs -/
 
